@@ -197,8 +197,31 @@ impl V {
         }
     }
 
+    /// Plain, human-readable rendering (also the format of corpus expectations).
     pub fn show(&self) -> String {
-        self.to_j().to_string()
+        use V::*;
+        match self {
+            Unit => "()".into(),
+            Bool(b) => format!("{b}"),
+            Char(c) => format!("{c:?}"),
+            Int(t, x) => format!("{x}{}", t.name()),
+            F32(x) => format!("{x:?}f32"),
+            F64(x) => format!("{x:?}f64"),
+            Str(s) => format!("{s:?}"),
+            Opt(None) => "None".into(),
+            Opt(Some(x)) => format!("Some({})", x.show()),
+            Enum(_, n, xs) => {
+                if xs.is_empty() {
+                    n.clone()
+                } else {
+                    format!("{n}({})", xs.iter().map(|x| x.show()).collect::<Vec<_>>().join(", "))
+                }
+            }
+            Rec(fs) => format!("{{{}}}", fs.iter().map(|(n, x)| format!("{n}: {}", x.show())).collect::<Vec<_>>().join(", ")),
+            List(xs) => format!("[{}]", xs.borrow().iter().map(|x| x.show()).collect::<Vec<_>>().join(", ")),
+            Trk(t) => format!("Trk#{t}"),
+            TrkZ => "TrkZ".into(),
+        }
     }
 
     /// Snapshot: lists are copied so that later mutation does not change a
